@@ -14,6 +14,7 @@ import PPProofs.Props.C06Term
 #print axioms PP.Parse.acyclic_terminates
 #print axioms PP.Parse.acyclic_terminates_uniform
 #print axioms PP.Parse.parseString_terminates
+#print axioms PP.Parse.scanString_terminates
 #print axioms PP.Parse.advancing_of_nonempty
 #print axioms PP.Parse.exG_advancing
 #print axioms PP.Parse.rankOk_spec
